@@ -13,7 +13,9 @@ ASSUMPTIONS = ["the client half-closes after sending, so 'never hang' is observa
                "bulk runs use Unix sockets (no RST-after-unread-data effects); a TCP sample runs too"]
 
 BAD_LINE = [b"GET /x", b"GET", b"", b"GET /x HTTP/1.2", b"GET /x http/1.1", b"GET /x HTTP/1.1x", b"GET /x HTTP/11", b"GET /x FOO",
-            b"GET /x HTTP/1.", b"GET /x  HTTP/1.1", b"GET /x HTTP/2", b"GET /x HTTP/4.0", b"/x HTTP/1.1", b"GET\t/x\tHTTP/1.1"]
+            b"GET /x HTTP/1.", b"GET /x  HTTP/1.1", b"GET /x HTTP/2", b"GET /x HTTP/4.0", b"/x HTTP/1.1", b"GET\t/x\tHTTP/1.1",
+            b"GET /x HTTP/1.01", b"GET /x HTTP/01.1", b"GET /x HTTP/+1.1", b"GET /x HTTP/1.+1", b"GET /x HTTP/2.00", b"GET /x HTTP/1.1.1",
+            b"GET /x HTTP/ 1.1", b"GET /x HTTP/1,1", b"GET /x HTTP/-1.1", b"GET /x HTTPS/1.1"]
 NO_COLON = [b"NoColonHere", b"Host example.com", b"X-A=1", b"novalue"]
 NON_ASCII_LINE = [b"G\xc3\xa9T /x HTTP/1.1", b"GET /\xff HTTP/1.1", b"GET /x HTTP/1.1\x80"]
 NON_ASCII_HDR = [b"X-A: caf\xc3\xa9", b"X-\xe9: 1", b"\x80: 1"]
@@ -33,6 +35,15 @@ def offending(cls, v, tag):
         return b"GET " + t + b" HTTP/1.1\r\n" + v + b"\r\n\r\n"
     if cls == "expect":
         return b"POST " + t + b" HTTP/1.1\r\nExpect: " + v + b"\r\nContent-Length: 3\r\n\r\nabc"
+    if cls == "expect-chunked":
+        # the refused request has a chunked body whose size lines look like request lines
+        return (b"POST " + t + b" HTTP/1.1\r\nHost: h\r\nExpect: " + v + b"\r\nTransfer-Encoding: chunked\r\n\r\n" +
+                b"2A ;x HTTP/1.1\r\n" + b"GET /smuggled HTTP/1.1\r\nHost: h\r\n\r\nxx"[:42] + b"\r\n0\r\n\r\n")
+    if cls == "expect-nobody":
+        # no body at all, on a request that ends the connection anyway (HTTP/1.0, or Connection: upgrade / close)
+        line = [b" HTTP/1.0\r\nHost: h\r\n", b" HTTP/1.1\r\nHost: h\r\nConnection: Upgrade\r\nUpgrade: x\r\n",
+                b" HTTP/1.1\r\nHost: h\r\nConnection: close\r\n", b" HTTP/1.1\r\nHost: h\r\n"][len(v) % 4]
+        return b"GET " + t + line + b"Expect: " + v + b"\r\n\r\n"
     if cls == "expect-upgrade":
         # an unsupported expectation is refused on an upgrade request too
         conn = [b"Upgrade", b"keep-alive, Upgrade", b"upgrade"][len(v) % 3]
@@ -52,7 +63,8 @@ def offending(cls, v, tag):
 
 
 CLASSES = [("line", BAD_LINE, 400), ("nocolon", NO_COLON, 400), ("nonascii-line", NON_ASCII_LINE, None),
-           ("nonascii-hdr", NON_ASCII_HDR, None), ("expect", BAD_EXPECT, 417), ("expect-upgrade", BAD_EXPECT[:4], 417), ("version", HIGH_VER, 505),
+           ("nonascii-hdr", NON_ASCII_HDR, None), ("expect", BAD_EXPECT, 417), ("expect-upgrade", BAD_EXPECT[:4], 417), ("expect-chunked", BAD_EXPECT[:3], 417),
+           ("expect-nobody", [b"bogus", b"200-ok", b"100-continue, other", b"100continue"], 417), ("version", HIGH_VER, 505),
            ("version-body", [b"HTTP/2.0|cl5", b"HTTP/2.0|cl37", b"HTTP/3.0|cl1024", b"HTTP/2.0|cl1025", b"HTTP/3.0|cl3000", b"HTTP/2.0|chunked"], 505)]
 
 
